@@ -17,7 +17,7 @@ def _suites():
     return out
 
 
-STYLES = ["untimed", "timed", "slowcons", "blockedwrite", "blockedwrite", "trickle", "timed"]
+STYLES = ["untimed", "timed", "slowcons", "blockedwrite", "blockedwrite", "trickle", "timed", "backlog"]
 SUITES = _suites()
 ASSUMPTIONS = [
     "model: the discipline's goroutine as a program-counter machine (Join.jstep); channels, producer, consumer, ticker grid and fake clock "
